@@ -12,6 +12,7 @@ import (
 // first generation must all be stale, handles of the second all new.
 func exhaustRun(spec *Spec, res *Result) *Violation {
 	d := simdisk.New(60000)
+	d.NoTrace = true // no crash images are taken from this run; the trace would cost gigabytes
 	var viol *Violation
 	fail := func(sig, detail string) {
 		if viol == nil {
